@@ -75,22 +75,23 @@ def register(reg):
     ]
     # C13 potential (see contracts/multistage.py: WADV is the recurrence induced by the real n_advance)
     S_ = "(self._binomial_snapshots + 1)"
-    K_ = "len(snapshots)"
+    K_ = "len(g.fs)"      # the ghost's copy of the block's checkpoint stack (pushed together with g.P)
     T_ = "self._trajectory"
     E_ = "(g.N - g.adj)"
-    TOP = "snapshots[%s - 1]" % K_
+    TOP = "g.fs[%s - 1]" % K_
     BLOCK_END = "min(n0s + self._period, g.N)"
     TOT = "WADV(g.bl, %s, %s)" % (S_, T_)
     # (the relation for the top entry is stated on its own: after a push the quantified part then only
     # concerns entries the push did not touch)
-    CHAIN = ("g.bs == n0s and g.bl == %s - n0s and len(g.P) == %s and implies(%s >= 1, g.P[0] == 0) and "
-             "forall(1, %s - 1, lambda i: g.P[i] == g.P[i - 1] + WADV(snapshots[i] - snapshots[i - 1], %s - i + 1, %s)) "
-             "and implies(%s >= 2, g.P[%s - 1] == g.P[%s - 2] + WADV(snapshots[%s - 1] - snapshots[%s - 2], %s - %s + 2, %s))"
-             % (BLOCK_END, K_, K_, K_, S_, T_, K_, K_, K_, K_, K_, S_, K_, T_))
+    CHAIN = ("g.bs == n0s and g.bl == %s - n0s and len(g.P) == %s and len(snapshots) == %s and "
+             "forall(0, len(snapshots), lambda i: g.fs[i] == snapshots[i]) and implies(%s >= 1, g.P[0] == 0) and "
+             "forall(1, %s - 1, lambda i: g.P[i] == g.P[i - 1] + WADV(g.fs[i] - g.fs[i - 1], %s - i + 1, %s)) "
+             "and implies(%s >= 2, g.P[%s - 1] == g.P[%s - 2] + WADV(g.fs[%s - 1] - g.fs[%s - 2], %s - %s + 2, %s))"
+             % (BLOCK_END, K_, K_, K_, K_, S_, T_, K_, K_, K_, K_, K_, S_, K_, T_))
     POT_BLOCK = [
         # (at a block's very first iteration the ghost still describes the previous block: its first
         # action, the Copy of the periodic checkpoint, starts the accounting)
-        ("untouched_block_has_only_its_periodic_checkpoint", "implies(%s == %s, %s == 1)" % (E_, BLOCK_END, K_)),
+        ("untouched_block_has_only_its_periodic_checkpoint", "implies(%s == %s, len(snapshots) == 1)" % (E_, BLOCK_END)),
         ("potential_stack", "implies(%s < %s, %s)" % (E_, BLOCK_END, CHAIN)),
         ("potential", "implies(%(E)s < %(BE)s, (%(K)s == 0 and g.tb == %(TOT)s) or (%(K)s >= 1 and "
                       "g.tb + g.P[%(K)s - 1] + WADV(%(E)s - %(TOP)s, %(S)s - %(K)s + 1, %(T)s) == %(TOT)s))"
@@ -114,10 +115,7 @@ def register(reg):
                           "WADV(%(E)s - n0, %(S)s - %(K)s + 1, %(T)s) == (n1 - n0) + "
                           "WADV(%(E)s - n1, %(S)s - %(K)s, %(T)s) + WADV(n1 - n0, %(S)s - %(K)s + 1, %(T)s)"
                           % {"E": E_, "S": S_, "K": K_, "T": T_})],
-               "n1[2]": [("top_of_the_ghost_stack",
-                          "len(g.P) == len(snapshots) and len(g.cs) == len(snapshots) - 1 and "
-                          "(g.cs[len(g.cs) - 1] if len(g.cs) >= 1 else g.bs) == snapshots[len(snapshots) - 1]"),
-                         ("use", "WADV.step", STEP),
+               "n1[2]": [("use", "WADV.step", STEP),
                          ("segment_splits",
                           "WADV(%(E)s - n0, %(S)s - %(K)s, %(T)s) == (n1 - n0) + "
                           "WADV(%(E)s - n1, %(S)s - %(K)s - 1, %(T)s) + WADV(n1 - n0, %(S)s - %(K)s, %(T)s)"
@@ -133,7 +131,8 @@ def register(reg):
                "emit_EndForward": "tl_end_forward", "emit_Reverse": "tl_reverse", "emit_Copy": "tl_copy",
                "emit_Move": "tl_move", "emit_EndReverse": "tl_end_reverse",
                "env_frame": ["_n", "_max_n"],
-               "ghost_types": {"cs": ("list", ["int"]), "cov": ("list", ["int"]), "P": ("list", ["int"])}},
+               "ghost_types": {"cs": ("list", ["int"]), "cov": ("list", ["int"]), "P": ("list", ["int"]),
+                               "fs": ("list", ["int"])}},
         loops=[
             LoopSpec("self._max_n is None", PERIODIC + [
                 ("phase", "g.phase == 0 and not g.done and g.passes == 0 and g.adj == 0 and self._r == 0"),
